@@ -169,6 +169,49 @@ pub fn hostile(rng: &mut Rng) -> (Vec<u8>, &'static str, Vec<&'static str>) {
             (v, "deep_chain", kinds)
         }
         4 => (base_document(rng), "valid_document", kinds),
+        5 if rng.pct(12) => {
+            // large but shallow inputs: very wide parents, very many attributes, very long names
+            let mut v = Vec::new();
+            match rng.below(4) {
+                0 => {
+                    let n = rng.range(300, 1500);
+                    let names = rng.range(1, 40);
+                    v.extend_from_slice(b"<r>");
+                    for i in 0..n {
+                        v.extend_from_slice(format!("<c{} a=\"{}\"/>", rng.below(names), i).as_bytes());
+                    }
+                    if rng.pct(70) {
+                        v.extend_from_slice(b"</r>");
+                    }
+                }
+                1 => {
+                    let n = rng.range(100, 800);
+                    v.extend_from_slice(b"<r><p");
+                    for i in 0..n {
+                        v.extend_from_slice(format!(" a{i}=\"v\"").as_bytes());
+                    }
+                    v.extend_from_slice(b"/><p");
+                    for i in (0..n).rev().step_by(2) {
+                        v.extend_from_slice(format!(" a{i}='w'").as_bytes());
+                    }
+                    v.extend_from_slice(b"/></r>");
+                }
+                2 => {
+                    let n = rng.range(1_000, 20_000);
+                    let name: String = std::iter::repeat('n').take(n).collect();
+                    v.extend_from_slice(format!("<{name} {name}=\"1\"><{name}/></{name}>").as_bytes());
+                }
+                _ => {
+                    let n = rng.range(1_000, 30_000);
+                    v.extend_from_slice(b"<r><!--");
+                    v.extend(std::iter::repeat(b'c').take(n));
+                    v.extend_from_slice(b"--><![CDATA[");
+                    v.extend(std::iter::repeat(b'd').take(n / 2));
+                    v.extend_from_slice(b"]]></r>");
+                }
+            }
+            (v, "large_shallow", kinds)
+        }
         _ => {
             let mut b = base_document(rng);
             let other = base_document(rng);
